@@ -42,7 +42,7 @@ register(
     level="proof",
     streams=["steps", "arrival"],
     falsifier=fals_models.falsify_C11,
-    partial=["steps_exact_partial carries the hypothesis Arr.Exact / RB.Exact, which excludes exactly the shapes of the known findings F3 (delta-min vector ending in a plateau) and K1 (ArrivalCurvePrefix yields 0); F2 (Propagated over nothing) was repaired by a fix: commit and is now covered (propagated_exact); the full statement StepsExactForAll is proved FALSE (counterexample_F3/K1)"],
+    partial=["steps_exact_partial carries the hypothesis Arr.Exact / RB.Exact, which now excludes exactly the shape of the known finding K1 (a bare ArrivalCurvePrefix yields 0); F2 (Propagated over nothing) and F3 (delta-min vector ending in a plateau) were repaired by fix: commits and are covered (propagated_exact, curve_exact); the full statement StepsExactForAll is proved FALSE by K1 (counterexample_K1)"],
     explanation="steps_iter (cut at every horizon) = exactly the increase points, strictly increasing, >= 1: proved for every arrival model and request bound outside three defect shapes whose negation is proved with concrete witnesses and replayed on the real code (known findings).",
 )
 
@@ -89,7 +89,7 @@ register(
     level="proof",
     streams=["fp", "edf", "fifo", "steps", "demand", "fixed_point"],
     falsifier=fals_analyses.falsify_C06,
-    partial=["hypotheses: arrival models outside the C11 findings (F3/K1), limit >= 1 (K4), the task under analysis releases something (degenerate finding K5: for a never-arriving task the analyses return Ok(0), naive all-offset evaluation returns the interfering busy window; never_arriving_counterexample)"],
+    partial=["hypotheses: arrival models outside the C11 finding K1, limit >= 1 (K4), the task under analysis releases something (degenerate finding K5: for a never-arriving task the analyses return Ok(0), naive all-offset evaluation returns the interfering busy window; never_arriving_counterexample)"],
     explanation="for each of the nine analyses: model result = naive evaluation (linear-scan least solutions, every offset in [0,L), maximum, error iff some least solution is missing) proved via C08 (search = least solution), C11 (steps = increase points) and a domination argument (between consecutive search points the right-hand side does not grow).",
 )
 
@@ -149,7 +149,7 @@ register(
     profiles=["checked", "release", "relchk"],
     falsifier=fals_analyses.falsify_C20,
     partial=["integer overflow of + and * on u64/usize is outside the model (tripwire: the overflow-checking release build in the falsifier)",
-             "the guards of the ROS 2 analyses are covered by C07's equalities with the panic-free naive evaluation; findings K1, F9, F3 (debug assert in bw), F11 (debug hang in bw), F12 are genuine violations and recorded; F5 (wcet extrapolate(0)) and F2 (with its consequence F2-C20) were repaired by fix: commits"],
+             "the guards of the ROS 2 analyses are covered by C07's equalities with the panic-free naive evaluation; findings K1, F9, F11 (debug hang in bw), F12 are genuine violations and recorded; F5 (wcet extrapolate(0)), F2 and F3 (with their consequences, incl. the debug assertion in bw) were repaired by fix: commits"],
     explanation="WF input => no guard of the model fails and no fuel runs out (subtraction / index / assertion safety of search, the nine analyses, demand queries, step_offsets; termination of the default service_time, of extrapolation, of the extrapolating iterator; brute-force cross-check of fixed_point::search equals the search). The correspondence streams run against the build with debug assertions and overflow checks; the falsifier runs the same operations through three builds and compares the outcomes.",
 )
 
